@@ -1,6 +1,7 @@
 package props
 
 import (
+	"github.com/diskfs/go-diskfs/disk"
 	"time"
 
 	"verifharness/hx"
@@ -13,3 +14,6 @@ func watchdog() time.Duration {
 	}
 	return 20 * time.Second
 }
+
+// diskHandle wraps *disk.Disk (kept as a type so helpers can grow).
+type diskHandle struct{ *disk.Disk }
